@@ -99,6 +99,29 @@ def _mk_custom(i):
 
 CUSTOMS = [_mk_custom(i) for i in range(4)]
 
+# STATEFUL custom predicates (reg['opts']['stateful'] = kind): one function object per registration; every evaluation is
+# recorded in request.environ['verif.evals'] and the value depends on how many times THIS predicate was asked before in
+# the request:  count = always true;  once = true only the first time it is asked (a one-shot ticket);  alt = false, true,
+# false, ...  The lookup asks every candidate's predicates once, in candidate order, and stops at the first candidate
+# that holds (Props.C03.lookup_asks_candidate_prefix), so what counts is the value at the FIRST ask.
+STATEFUL_KINDS = ('count', 'once', 'alt')
+STATEFUL_FIRST = {'count': True, 'once': True, 'alt': False}
+
+
+def stateful_id(tag):
+    return 100 + tag
+
+
+def mk_stateful(tag, kind):
+    def sp(context, request):
+        ev = request.environ.setdefault('verif.evals', [])
+        n = sum(1 for t in ev if t == tag)
+        ev.append(tag)
+        return {'count': True, 'once': n == 0, 'alt': n % 2 == 1}[kind]
+    sp.__name__ = 'sp_%s_%d' % (kind, tag)
+    sp.__text__ = 'stateful %s %d' % (kind, tag)
+    return sp
+
 
 class Node(dict):
     """a resource: traversable (dict of children); `__getitem__` may mark the child it hands out (case['marks'])"""
@@ -234,6 +257,7 @@ def build_app(case):
     if not auto:
         config.commit()
     w.views = {}
+    w.stateful = {}
     captured = {}
     for reg in case['regs']:
         tag = reg['tag']
@@ -247,6 +271,9 @@ def build_app(case):
             return resp
         view.__name__ = 'v%d' % tag
         kw = pred_kwargs(w.classes, reg)
+        if reg['opts'].get('stateful'):
+            fn = w.stateful[tag] = mk_stateful(tag, reg['opts']['stateful'])
+            kw['custom_predicates'] = tuple(kw.get('custom_predicates', ())) + (fn,)      # asked last
         config.add_view(view, context=ctx_spec(w.classes, reg['ctx']), name=reg['name'], route_name=reg.get('route'),
                         permission=('p' if reg.get('perm') else None), **kw)
         if not auto:
@@ -322,6 +349,7 @@ def make_environ(rq):
 def run_request(w, case):
     """send the request through Router.__call__; returns the canonical outcome"""
     env = make_environ(case['req'])
+    w.last_env = env
     w.captured.clear()
     for n, init in zip(w.nodes, w.initial_marks):        # undo what an earlier request's marks left on the instances
         directlyProvides(n, init)
@@ -419,12 +447,18 @@ def model_regs(w, case, ids):
         for i in o.get('custom', []):
             from pyramid.predicates import CustomPredicate
             preds.append({'n': 'custom', 'not': False, 'v': {'k': 'custom', 'i': i, 'r': CustomPredicate(CUSTOMS[i], None).phash()}})
+        if o.get('stateful'):
+            from pyramid.predicates import CustomPredicate
+            preds.append({'n': 'custom', 'not': False, 'v': {'k': 'custom', 'i': stateful_id(reg['tag']),
+                                                            'r': CustomPredicate(w.stateful[reg['tag']], None).phash()}})
         route = reg.get('route')
         rq = 0 if route is None else 1 + [r['name'] for r in case['routes']].index(route)
         out.append({'cls': 0, 'req': rq, 'ctx': ctx_id(reg['ctx']), 'name': reg['name'], 'preds': preds,
                     'accept': offer_data(w, reg['accept'], ids) if reg.get('accept') is not None else None,
                     'sec': bool(reg.get('perm')), 'tag': reg['tag']})
         kw = pred_kwargs(w.classes, reg)
+        if o.get('stateful'):
+            kw['custom_predicates'] = tuple(kw.get('custom_predicates', ())) + (w.stateful[reg['tag']],)
         if 'custom_predicates' in kw:
             kw['custom'] = predvalseq(kw.pop('custom_predicates'))
         if 'accept' in kw:
@@ -492,7 +526,8 @@ def abstract_request(w, case, env, ids, request=None, ctx=None, view_name=None, 
     if md is not None:
         md = [[k, v if isinstance(v, str) else '<%s>' % type(v).__name__] for k, v in md.items()]
     return {'method': wr.method, 'get': [[k, v] for k, v in wr.GET.items()], 'post': [[k, v] for k, v in wr.POST.items()],
-            'env': envl, 'path': wr.upath_info, 'md': md, 'auth': bool(rq.get('auth')), 'custom': list(rq.get('custom', [])),
+            'env': envl, 'path': wr.upath_info, 'md': md, 'auth': bool(rq.get('auth')),
+            'custom': list(rq.get('custom', [])) + [stateful_id(r_['tag']) for r_ in case['regs'] if STATEFUL_FIRST.get(r_['opts'].get('stateful'))],
             're': table, 'accq': accq, 'lineage': lineage_ids(w, ctx), 'phys': phys_path(ctx),
             'permitted': bool(rq.get('permitted', True)), 'rsro': rsro, 'csro': csro, 'vn': view_name}
 
@@ -588,6 +623,10 @@ def reg_holds(w, reg, ctxinfo):
     for name, val in o.items():
         if name == 'custom':
             if not all(i in case['req'].get('custom', []) for i in val):
+                return False
+        elif name == 'stateful':
+            # the lookup asks a candidate's predicates once: the value at the first ask decides
+            if not STATEFUL_FIRST[val]:
                 return False
         elif name == 'containment':
             if not doc_pred(name, ctx_spec(w.classes, val), name in notted, ctxinfo):
@@ -828,6 +867,7 @@ def gen_app(rng, big=False):
     focus = [(gen_ctx_ref(rng, n, 0.25, rel, ifaces, p_iface), rng.choice(['', '', 'x']), rng.choice([None, None] + [r['name'] for r in routes]))
              for _ in range(rng.choice([1, 2, 2, 3]))]
     rich = rng.random() < 0.3
+    stateful_app = rng.random() < 0.25        # views with stateful custom predicates (one-shot / counting / alternating)
     for t in range(nregs):
         if rng.random() < 0.7:
             ctx, name, route = rng.choice(focus)
@@ -843,6 +883,8 @@ def gen_app(rng, big=False):
             regs.append(reg)
             continue
         o, notted, accept = gen_opts(rng, n, routes, offers, rich, rel, p_accept)
+        if stateful_app and rng.random() < 0.5:
+            o['stateful'] = rng.choice(['once', 'once', 'count', 'alt'])
         regs.append({'ctx': ctx, 'name': name, 'route': route, 'opts': o, 'not': notted, 'accept': accept,
                      'perm': rng.random() < 0.15, 'tag': t + 1})
     app = {'classes': classes, 'tree': tree, 'routes': routes, 'regs': regs,
@@ -1071,6 +1113,34 @@ def marking_cases():
                     yield marking_case(views, point, child, extra)
 
 
+# ------------------------------------------------------------------------------------------------------
+# "stateful family": ONE slot (so a MultiView) with 2-3 views out of: one-shot ticket; one-shot ticket + a holding
+# predicate; one-shot ticket + a failing predicate; counting; alternating (false at the first ask); no predicate - in every
+# registration order; and the same with the views spread over a subclass slot and its base-class slot.
+STATEFUL_VIEWS = [{'stateful': 'once'}, {'stateful': 'once', 'xhr': True}, {'stateful': 'once', 'request_method': 'POST'},
+                  {'stateful': 'count'}, {'stateful': 'alt'}, {}]
+
+
+def stateful_case(views, spread=False):
+    classes = [{'bases': [], 'impl': []}, {'bases': [0], 'impl': []}]
+    regs = [{'ctx': (['c', 1 - (t % 2)] if spread else ['c', 1]), 'name': '', 'route': None, 'opts': dict(o), 'not': [],
+             'accept': None, 'perm': False, 'tag': t + 1} for t, o in enumerate(views)]
+    return {'classes': classes, 'tree': [{'cls': 1, 'named': True, 'provides': []}], 'routes': [], 'regs': regs,
+            'commit': 'auto', 'nf': True,
+            'req': {'path': '/', 'method': 'GET', 'qs': '', 'body': None, 'ctype': None, 'headers': [], 'accept': None,
+                    'xhr': 'XMLHttpRequest', 'auth': False, 'permitted': True, 'custom': []}}
+
+
+def stateful_cases():
+    for nv in (2, 3):
+        for views in itertools.permutations(STATEFUL_VIEWS, nv):
+            if not any(v.get('stateful') for v in views):
+                continue
+            yield stateful_case(views)
+            if nv == 2:
+                yield stateful_case(views, spread=True)
+
+
 def gen_cases(rng, napps, nreq, big=False):
     for _ in range(napps):
         app = gen_app(rng, big=big)
@@ -1093,7 +1163,8 @@ def check_case(ctx, case, want_model=True):
         return {'out': out, 'minfo': None, 'real': None, 'viol': {'case': case, 'impl': out, 'expected': 'request reaches view lookup',
                                                                     'detail': 'request did not reach ContextFound'}, 'stats': {}}
     viol, stats = oracle(w, case, out, minfo, real)
-    return {'out': out, 'minfo': minfo, 'real': real, 'viol': viol, 'stats': stats}
+    return {'out': out, 'minfo': minfo, 'real': real, 'viol': viol, 'stats': stats,
+            'evals': list(w.last_env.get('verif.evals', []))}
 
 
 def compare_model(case, res, mo):
@@ -1112,6 +1183,20 @@ def compare_model(case, res, mo):
             ph = None
         if d[0] != r[0] or ph != r[1] or d[2] != r[2]:
             problems.append('derived[%d] model=(%s,%s…,%s) real=(%s,%s…,%s)' % (i, d[0], (ph or '?')[:8], d[2], r[0], r[1][:8], r[2]))
+    # evaluation trace of the stateful predicates: every view asked at most once, in the order in which the model's
+    # lookup asks the candidates, nothing after the view that ran, and the view that ran asked exactly once
+    ev = res.get('evals') or []
+    if ev or any(r_['opts'].get('stateful') for r_ in case['regs']):
+        asked = mo.get('asked', [])
+        it = iter(asked)
+        if len(set(ev)) != len(ev):
+            problems.append('trace: the predicates of a view were evaluated more than once: %s (model asks %s)' % (ev, asked))
+        elif not all(any(t == a for a in it) for t in ev):
+            problems.append('trace: views evaluated %s is not a subsequence of the candidates the model asks %s' % (ev, asked))
+        elif res['out'][0] in ('response', 'forbidden'):
+            wreg = [r_ for r_ in case['regs'] if r_['tag'] == res['out'][1]]
+            if wreg and wreg[0]['opts'].get('stateful') and (not ev or ev[-1] != res['out'][1]):
+                problems.append('trace: the view that ran is not the last one whose stateful predicate was evaluated: %s' % (ev,))
     if mo.get('coherent') and mo.get('spec') != mo.get('out'):
         problems.append('model!=spec on a coherent registration list (contradicts lookup_eq_spec)')
     if problems:
@@ -1203,6 +1288,7 @@ def run(ctx):
     cases += list(gen_cases(rng, ctx.n(30, 600), nreq, big=True))
     cases += list(gen_race_cases(rng, ctx.n(400, 3000)))
     cases += list(marking_cases())
+    cases += list(stateful_cases())
     fam2 = list(family_cases(2))
     fam3 = list(family_cases(3))
     cases += fam2 + (rng.sample(fam3, 500) if ctx.tier == 'quick' else fam3)
@@ -1247,6 +1333,12 @@ def run(ctx):
             vfutil.bump(dist['candidates'], min(st['cands'], 6))
             vfutil.bump(dist['qualifying'], min(st['qual'], 4))
         vfutil.bump(dist['commit_mode'], case.get('commit', 'auto'))
+        if any(r_['opts'].get('stateful') for r_ in case['regs']):
+            dist['stateful_cases'] = dist.get('stateful_cases', 0) + 1
+            vfutil.bump(dist.setdefault('stateful_evaluations_per_request', {}), min(len(res.get('evals') or []), 4))
+            wr_ = [r_ for r_ in case['regs'] if res['out'][0] in ('response', 'forbidden') and r_['tag'] == res['out'][1]]
+            if wr_ and wr_[0]['opts'].get('stateful'):
+                vfutil.bump(dist.setdefault('winner_has_stateful', {}), wr_[0]['opts']['stateful'])
         if case.get('marks'):
             dist.setdefault('runtime_marked_cases', 0)
             dist['runtime_marked_cases'] += 1
@@ -1325,7 +1417,7 @@ def run(ctx):
             'distribution': dist, 'notes': notes,
             'assumptions': ['zope.interface resolution orders (__sro__), WebOb request parsing and Accept negotiation, Python re are inputs of the model',
                             'sha256 over the predicate texts is treated as injective',
-                            'view bodies, custom predicates and the security policy are harness-controlled and pure'],
+                            'view bodies, the security policy and the plain custom predicates are harness-controlled and pure; the STATEFUL custom predicates depend only on how often they were asked in the request'],
             'trusted_base': ['extract/c03.py (probes the tree under test by running it: default predicate order, PredicateList.make order table, _find_views enumeration on a scratch registry, register_view probe order)',
                              'zope.interface adapter registry `registered`/`registerAdapter`/`unregister` (exact-slot storage)']}
 
@@ -1386,6 +1478,12 @@ def search(ctx):
                 return {'violations': viol, 'searched': n, 'exhaustive': False}
         if viol:
             return {'violations': viol, 'searched': n, 'exhaustive': False}
+    # stateful family: one-shot / counting / alternating custom predicates in one slot, every order
+    for case in stateful_cases():
+        if try_case(case) and len(viol) >= 3:
+            return {'violations': viol, 'searched': n, 'exhaustive': False}
+    if viol:
+        return {'violations': viol, 'searched': n, 'exhaustive': False}
     # marking family: class view / marker-interface view / both x the point at which the context instance is marked
     for case in marking_cases():
         if try_case(case) and len(viol) >= 3:
